@@ -138,7 +138,8 @@ class C05(Property):
 
     def directed_case(self, rng: random.Random) -> Dict[str, Any]:
         """layouts aimed at the repaired defects (D16, D19, D501-D506)"""
-        kind = rng.choice(["chain", "single-chain", "window", "same-kind", "cross-hybrid", "cross-single", "cross-span"])
+        kind = rng.choice(["chain", "single-chain", "window", "same-kind", "cross-hybrid", "cross-single", "cross-span",
+                           "nested-cands", "nested-cands", "coords-nonmember"])
         length = rng.choice([100, 200, 1000])
         circular = kind.startswith("cross") or rng.random() < 0.3
         u = length // 100
@@ -219,6 +220,57 @@ class C05(Property):
             if rng.random() < 0.5:
                 b = rng.randrange(82, 93)
                 add(b, b + 2, rng.choice([0, 1, 6]), [])
+        elif kind == "nested-cands":
+            # several two-member groups (shared gene or overlapping cores) with small cores and wide, nesting
+            # extents: candidates that are not neighbours in sorted order can still be related
+            k = rng.choice([2, 3, 3, 4])
+            if rng.random() < 0.5:
+                # outer group (core in the middle, wide extent), a group left of its core but inside its extent,
+                # a group whose core meets the outer core: related candidates that are not adjacent when sorted
+                k = 0
+                m = rng.randrange(40, 48)
+                far = 30
+                for gi, (c0, c1, nb) in enumerate([(m, m + 2, far), (m + 3, m + 5, far),
+                                                   (m - 26, m - 24, 2), (m - 20, m - 18, 2),
+                                                   (m + rng.choice([1, 4, 6]), m + 8, 3), (m + 10, m + 12, rng.choice([3, 26])),
+                                                   (m + 44, m + 46, 1), (m + 48, m + 50, 1)]):
+                    add(c0, c1, nb, [40 + gi // 2])
+            for gi in range(k):
+                a = rng.randrange(8, 80)
+                w = rng.choice([2, 4, 10, 30])
+                nb = rng.choice([0, 2, 8, 20, 40])
+                by_gene = rng.random() < 0.6
+                genes = [30 + gi] if by_gene else []
+                add(a, a + 2, nb, genes)
+                if by_gene:
+                    b = min(96, a + w)
+                    add(b, b + 2, rng.choice([0, 2, nb]), genes)
+                else:
+                    add(a + 1, a + 3 + rng.choice([0, w]), rng.choice([0, 2, nb]), genes)
+            for _ in range(rng.choice([0, 1, 2])):
+                a = rng.randrange(5, 90)
+                add(a, a + rng.choice([1, 3]), rng.choice([0, 2, 8]), [])
+        elif kind == "coords-nonmember":
+            # a protocluster with exactly the coordinates of a candidate it is not a member of
+            a = rng.randrange(10, 40)
+            b = a + rng.choice([6, 10, 20])
+            nb = rng.choice([2, 3, 5])
+            if rng.random() < 0.5:
+                add(a, a + 2, nb, [1])
+                add(b, b + 2, nb, [1])
+            else:
+                add(a, a + 3, nb, [])
+                add(a + 2, b + 2, nb, [])
+                ps[-2]["loc"] = area((a - nb) * u, (b + 2 + nb) * u, length, circular) if rng.random() < 0.3 else ps[-2]["loc"]
+            mid = rng.choice([a - nb, a - 1, b + 2, (a + b) // 2])   # mostly outside the group's combined core
+            ps.append(proto(simple(mid * u, mid * u + 1), area((a - nb) * u, (b + 2 + nb) * u, length, circular),
+                            [] if rng.random() < 0.8 else [1]))
+            if rng.random() < 0.8:
+                q = b + 2 + nb + rng.choice([-1, 0, 1, 3])
+                add(q, q + 2, rng.choice([0, 2]), [])
+            if rng.random() < 0.3:
+                q = a - nb - rng.choice([1, 2, 4])
+                add(max(0, q), max(1, q + 2), rng.choice([0, 2]), [])
         else:
             # a hybrid whose combined core spans the origin although no member's core does
             a, b = rng.randrange(90, 98), rng.randrange(2, 10)
